@@ -102,6 +102,8 @@ class Scheduler:
         t = self.me()
         if t is None:
             return  # code running outside the simulation (setup/teardown by the harness)
+        if self.aborting:
+            raise _Abort()
         t.pending = (label, enabled or (lambda: True))
         if t.first:
             t.first = False
